@@ -16,6 +16,32 @@ PATTERNS = [(3, 255, 0, 0), (3, 255, 1, 255), (2, 2, 0, 0), (0, 0, 0, 0), (255, 
 SCRIPTS = [('nop', 0), ('raise', 0), ('removeSelf', 0), ('addExtra', 0)] + \
           [('remove', w) for w in range(1, NREGS + 1)]
 
+# How a scenario is made concrete (the spec's `raise` script and "a registration" are abstract):
+#   style: 'func'   one closure per registration, the same object at add and at remove time
+#          'method' a bound method of a holder object, taken afresh (`holder.cb`) at add and at remove
+#                   time as every cflib service does (equal, not identical, objects)
+#   exc:   which exception a `raise` script raises (with a message, without arguments, ...)
+STYLES = ['func', 'method']
+
+
+class _Scripted(Exception):
+    pass
+
+
+EXCEPTIONS = [lambda w: ValueError('scripted exception in callback %d' % w), lambda w: ValueError(),
+              lambda w: AssertionError(), lambda w: KeyError(w), lambda w: StopIteration(),
+              lambda w: IndexError(), lambda w: OSError(5, 'scripted'), lambda w: _Scripted(),
+              lambda w: RuntimeError(('a', 'tuple'))]
+
+
+def concretise(sc, i):
+    """Deterministic style / exception kind for the i-th scenario of a list (kept in the scenario)."""
+    import zlib
+    h = zlib.crc32(repr((sc['pat'], sc['script'], sc['regs0'], sc['headers'], i)).encode())
+    sc.setdefault('style', STYLES[h % 2])
+    sc.setdefault('exc', (h // 2) % len(EXCEPTIONS))
+    return sc
+
 
 # --------------------------------------------------------------------------- the real code
 class FakeLink:
@@ -54,9 +80,18 @@ def execute(sc, mutant=None):
         cf = None
         ours = {}
 
+        style = sc.get('style', 'func')
+        exc_kind = sc.get('exc', 0)
+
+        def who(callback):
+            holder = getattr(callback, '__self__', None)
+            if holder is not None and id(holder) in ours:
+                return ours[id(holder)]
+            return ours.get(id(callback))
+
         def project():
             try:
-                return [ours[id(c.callback)] for c in cf.incoming.cb if id(c.callback) in ours]
+                return [who(c.callback) for c in cf.incoming.cb if who(c.callback) is not None]
             except Exception:
                 return None
 
@@ -71,20 +106,32 @@ def execute(sc, mutant=None):
         if mutant:
             mutant(cf)
         cbs = {}
+        holders = {}
+
+        class Holder:
+            def __init__(self, fn):
+                self.fn = fn
+
+            def cb(self, pk):
+                return self.fn(pk)
+
+        def the_cb(w):
+            # 'method': a new bound-method object on every access, like `self._new_packet_cb`
+            return holders[w].cb if style == 'method' else cbs[w]
 
         def register(w):
             p = sc['pat'][w - 1]
             if p[3] == 0 and p[2] == 0 and p[1] == 255:
-                cf.add_port_callback(p[0], cbs[w])
+                cf.add_port_callback(p[0], the_cb(w))
             else:
-                cf.add_header_callback(cbs[w], p[0], p[2], p[1], p[3])
+                cf.add_header_callback(the_cb(w), p[0], p[2], p[1], p[3])
 
         def unregister(w):
             p = sc['pat'][w - 1]
             if p[3] == 0 and p[2] == 0 and p[1] == 255:
-                cf.remove_port_callback(p[0], cbs[w])
+                cf.remove_port_callback(p[0], the_cb(w))
             else:
-                cf.remove_header_callback(cbs[w], p[0], p[2], p[1], p[3])
+                cf.remove_header_callback(the_cb(w), p[0], p[2], p[1], p[3])
 
         def make(w):
             k, t = sc['script'][w - 1]
@@ -103,7 +150,7 @@ def execute(sc, mutant=None):
                             register(EXTRA)
                             ops.append(['add', EXTRA])
                     elif k == 'raise':
-                        raise ValueError('scripted exception in callback %d' % w)
+                        raise EXCEPTIONS[exc_kind % len(EXCEPTIONS)](w)
                 finally:
                     ev.append({'e': 'call', 'w': w, 'ops': ops, 'cbs': project(), 'h': pk.header})
             return cb
@@ -111,6 +158,8 @@ def execute(sc, mutant=None):
         for w in range(1, EXTRA + 1):
             cbs[w] = make(w)
             ours[id(cbs[w])] = w
+            holders[w] = Holder(cbs[w])
+            ours[id(holders[w])] = w
         for w in sc['regs0']:
             register(w)
 
@@ -139,6 +188,7 @@ def execute(sc, mutant=None):
             e['cbs'] = []
     return {'pat': [list(p) for p in sc['pat']], 'script': [list(x) for x in sc['script']],
             'regs0': list(sc['regs0']), 'npackets': n, 'ev': [_norm(e) for e in ev],
+            'style': style, 'exc': exc_kind,
             'alive': alive and not dead, 'delivered': delivered}
 
 
@@ -180,17 +230,33 @@ def _mutant_run(variant):
                 for cb in it:
                     try:
                         cb.callback(pk)
-                    except Exception:
+                    except Exception as e:
                         if variant == 'abort_on_exc':
                             break
+                        if variant == 'handler_needs_exc_args':
+                            e.args[0]         # a log line that assumes the exception carries a message
                     if variant == 'first_only':
                         break
         inc.run = run
     return install
 
 
+def _mutant_remove_by_identity(cf):
+    inc = cf.incoming
+
+    def remove_header_callback(cb, port, channel, port_mask=0xFF, channel_mask=0xFF):
+        for port_callback in inc.cb:
+            if port_callback.port == port and port_callback.port_mask == port_mask and \
+                    port_callback.channel == channel and port_callback.channel_mask == channel_mask and \
+                    port_callback.callback is cb:
+                inc.cb.remove(port_callback)
+    inc.remove_header_callback = remove_header_callback
+
+
 MUTANTS = {'live': _mutant_run('live'), 'eqmask': _mutant_run('eqmask'),
-           'abort_on_exc': _mutant_run('abort_on_exc'), 'first_only': _mutant_run('first_only')}
+           'abort_on_exc': _mutant_run('abort_on_exc'), 'first_only': _mutant_run('first_only'),
+           'handler_needs_exc_args': _mutant_run('handler_needs_exc_args'),
+           'remove_by_identity': _mutant_remove_by_identity}
 
 
 # --------------------------------------------------------------------------- scenario sources
@@ -271,6 +337,8 @@ def _init():
 
 
 def run_scenarios(scs, mutant=None):
+    for i, sc in enumerate(scs):
+        concretise(sc, i)
     return common.pmap(_exec_job, [(sc, mutant) for sc in scs], init=_init, maxtasks=None)
 
 
@@ -310,7 +378,10 @@ def main(tier, seed, replay=None):
     out = common.Outcome('C07', tier, seed)
     rng = random.Random(seed)
     out.assumptions = [
-        'registrations in one scenario are distinct (property quantifier); one closure per registration',
+        'registrations in one scenario are distinct (property quantifier); a callback is a closure (same object at add '
+        'and remove) or a bound method taken afresh at add and remove time (equal, not identical), alternating per scenario',
+        'a `raise` script raises one of 9 Exception kinds (with message, without arguments, KeyError, StopIteration, OSError, '
+        'custom subclass, tuple argument), chosen per scenario',
         'header equality is port+channel (the two reserved header bits are always set by CRTPPacket)',
         'a registration added or removed while a packet is dispatched may see that packet at most once (DESIGN 3.1(2))',
     ]
